@@ -160,7 +160,10 @@ def gen_envs(argspecs, seed=0, limit=2600):
 
 def find_witness(actual, expected, argspecs, names=None, lane_bits=None, seed=0, env_ok=None):
     """a point where the two closed forms differ, or None"""
-    for args in gen_envs(argspecs, seed):
+    budget = max(24, min(2600, 600000 // max(1, T.size(actual) + T.size(expected))))
+    for ne, args in enumerate(gen_envs(argspecs, seed)):
+        if ne >= budget:
+            break
         env = {"args": args, "mem": lambda a: ((a * 131) ^ (a >> 7) ^ 0x5B) & 0xFF}
         if env_ok is not None:
             ok = env_ok(args, names)
@@ -168,6 +171,10 @@ def find_witness(actual, expected, argspecs, names=None, lane_bits=None, seed=0,
                 return None
             if not ok:
                 continue
+        if ne and (ne & 15) == 0 and T._budget[1] is not None:
+            import time
+            if time.time() > T._budget[1]:
+                return None
         try:
             e = T.ev(expected, env)
         except T.Uneval:
